@@ -161,3 +161,38 @@ package sequence
 //@   ensures result_0 && result_1 == nil
 //@ func (m MatchAlwaysFalse) Match [C06]
 //@   ensures !result_0 && result_1 == nil
+
+// ---------------------------------------------------------------------------
+// Rule text -> rule configuration (C06). strings.TrimSpace / HasPrefix / TrimPrefix / Cut are the
+// library's (abstract functions tsp, hasPrefix, trimPrefix, cutBefore/cutAfter).
+//   A match expression is  ["!"] ("$"tag | type) [args] : the "!" is recorded as Reverse for BOTH
+//   forms, the first field selects tag or type, the rest are the arguments.
+//@ func trimPrefixField [C06]
+//@   log trimPrefixField
+//@   ensures result_1 == hasPrefix(s, p)
+//@   ensures result_1 ==> result_0 == tsp(trimPrefix(s, p))
+//@   ensures !result_1 ==> result_0 == s
+//@ func parseMatch [C06]
+//@   ensures calls(trimPrefixField) == 2 && arg(trimPrefixField, 0, 0) == tsp(s) && arg(trimPrefixField, 0, 1) == "!"
+//@   ensures result.Reverse == ret(trimPrefixField, 0, 1)
+//@   ensures arg(trimPrefixField, 1, 0) == cutBefore(ret(trimPrefixField, 0, 0), " ") && arg(trimPrefixField, 1, 1) == "$"
+//@   ensures result.Args == tsp(cutAfter(ret(trimPrefixField, 0, 0), " "))
+//@   ensures ret(trimPrefixField, 1, 1) ==> result.Tag == ret(trimPrefixField, 1, 0) && result.Type == ""
+//@   ensures !ret(trimPrefixField, 1, 1) ==> result.Type == cutBefore(ret(trimPrefixField, 0, 0), " ") && result.Tag == ""
+//@ func parseExec [C06]
+//@   ensures calls(trimPrefixField) == 1 && arg(trimPrefixField, 0, 0) == cutBefore(tsp(s), " ") && arg(trimPrefixField, 0, 1) == "$"
+//@   ensures args == tsp(cutAfter(tsp(s), " "))
+//@   ensures ret(trimPrefixField, 0, 1) ==> tag == ret(trimPrefixField, 0, 0) && typ == ""
+//@   ensures !ret(trimPrefixField, 0, 1) ==> typ == cutBefore(tsp(s), " ") && tag == ""
+
+// newMatcher (C06): a rule's "!" wraps the configured matcher in the negation, exactly once, and
+// only then; no matcher means an error.
+//@ func reverseMatcher [C06]
+//@   log reverseMatcher
+//@   ensures istype(result, reverseMatch)
+//@ func (s *Sequence) newMatcher [C06]
+//@   requires s != nil && bq != nil
+//@   modifies *
+//@   ensures result_1 == nil ==> result_0 != nil
+//@   ensures result_1 == nil && mc.Reverse ==> calls(reverseMatcher) == 1 && result_0 == ret(reverseMatcher, 0)
+//@   ensures !mc.Reverse ==> calls(reverseMatcher) == 0
